@@ -50,7 +50,8 @@ void NiGeometryData::Sync(NiStreamReversible& stream) {
 			stream.Sync(vertices[i]);
 	}
 
-	// Disable tangent flag for OB
+	// Disable tangent flag for OB (in the written data only, the flag of the object is restored below)
+	const uint16_t dataFlagsInMemory = dataFlags;
 	if (stream.GetVersion().IsOB())
 		dataFlags &= ~(1 << 12);
 
@@ -61,6 +62,9 @@ void NiGeometryData::Sync(NiStreamReversible& stream) {
 	uint8_t numTextureSets = dataFlags & 0x3F;
 	if (stream.GetVersion().Stream() >= 34)
 		numTextureSets = dataFlags & 0x1;
+
+	if (stream.GetMode() == NiStreamReversible::Mode::Writing)
+		dataFlags = dataFlagsInMemory;
 
 	if (stream.GetVersion().File() == NiFileVersion::V20_2_0_7 && stream.GetVersion().Stream() > 34)
 		stream.Sync(materialCRC);
